@@ -19,7 +19,7 @@ from hypothesis import HealthCheck, Phase, given, seed as hseed, settings, strat
 from vlib import common, rules, schemagen
 from vlib.schemagen import PRIMS, prim_range
 
-KEYWORD_NAMES = ["int", "class", "for", "new", "typename", "char", "double", "union", "xor"]
+KEYWORD_NAMES = sorted(rules.KEYWORDS)
 BAD_NAMES = ["9x", "a-b", "a b", "x.y", "é", "a+"]
 
 
@@ -136,7 +136,7 @@ def candidates(sch, draw):
                     cands.append(("value-not-representable", pos + "-" + attr, mut))
                 if PRIMS[el["prim"]][0] > 1:
                     def mut(s, p=p):
-                        at_type(s, p)["length"] = 2
+                        at_type(s, p)["length"] = draw(st.sampled_from([0, 2, 2, 3, 100]))
                     cands.append(("multi-byte-array", pos, mut))
             if el["presence"] == "constant" and el["prim"] != "char" and el.get("value_ref") is None:
                 def mut(s, p=p, prim=el["prim"]):
@@ -184,7 +184,7 @@ def candidates(sch, draw):
         if kind == "set":
             for ci, c in enumerate(el["choices"]):
                 def mut(s, p=p, ci=ci, w=PRIMS[el["prim"]][0] * 8):
-                    at_type(s, p)["choices"][ci]["index"] = draw(st.sampled_from([w, w + 1, 255]))
+                    at_type(s, p)["choices"][ci]["index"] = draw(st.sampled_from([w, w + 1, 255, 256, 256 + w - 1, 264, 300, 65536]))
                 cands.append(("choice-index-out-of-range", pos, mut))
             if len(el["choices"]) >= 2:
                 def mut(s, p=p):
@@ -309,6 +309,10 @@ def candidates(sch, draw):
                     def mut(s, p=p, i=i):
                         at_type(s, p)["elements"][i]["length"] = draw(st.sampled_from([1, 2, None]))
                     cands.append(("malformed-level-header", poskind + "-varData-length", mut))
+
+                    def mut(s, p=p, i=i):
+                        at_type(s, p)["elements"][i]["prim"] = draw(st.sampled_from(["uint16", "int32", "uint64", "float"]))
+                    cands.append(("multi-byte-array", poskind + "-varData-multibyte", mut))
 
     header_edits(sch.get("header_type") or "messageHeader", ["schemaId", "templateId", "version", "blockLength"], "message-header")
     seen_h = set()
